@@ -27,6 +27,9 @@ Check(r, idx) ==
     \* racing value is reported at most once.
     \o (IF r.hang = 0 /\ r.nopressure = 1 /\ r.overflow > 0 THEN <<F(idx, "C06.overflow_without_size_pressure", <<r.overflow, r.expired, r.gated, r.sc>>)>> ELSE <<>>)
     \o (IF r.hang = 0 /\ r.nopressure = 1 /\ r.expired + r.other > 1 THEN <<F(idx, "C06.reported_twice", <<r.expired, r.other, r.sc>>)>> ELSE <<>>)
+    \* a write that finds the entry expired while a reader extends the deadline of the node being replaced (op sia-x): the stored value is
+    \* known to the policies - the orderings enumerate exactly the entries iteration yields
+    \o (IF r.hang = 0 /\ r.sc.op \in {"sia.setifabsent", "sia.set"} /\ r.live # r.cold THEN <<F(idx, "C05.present_but_unknown_to_policy", <<r.live, r.cold, r.inserted, r.sc>>)>> ELSE <<>>)
     \* an entry that is still present after the race is known to the wheel: covered by still_counted / expiration_not_reported above
     \o (IF r.hang = 0 /\ r.visible = 1 /\ r.deadlinepassed = 1 THEN <<F(idx, "C13.visible_after_deadline", r.sc)>> ELSE <<>>)
     \* a read racing the sweep (it only extends the deadline): a sized cache filled right after the race stays within its maximum
